@@ -1205,8 +1205,10 @@ func ruleC14R6(w *World, r *Report) {
 		"IsHexDigit":   func(c byte) bool { return c >= '0' && c <= '9' || c >= 'a' && c <= 'f' || c >= 'A' && c <= 'F' },
 		"IsOctalDigit": func(c byte) bool { return c >= '0' && c <= '7' },
 		"IsIdentStart": func(c byte) bool { return c >= 'a' && c <= 'z' || c >= 'A' && c <= 'Z' || c == '_' },
-		"IsIdentPart":  func(c byte) bool { return c >= 'a' && c <= 'z' || c >= 'A' && c <= 'Z' || c == '_' || c >= '0' && c <= '9' },
-		"IsPrint":      func(c byte) bool { return c >= 0x20 && c <= 0x7e },
+		"IsIdentPart": func(c byte) bool {
+			return c >= 'a' && c <= 'z' || c >= 'A' && c <= 'Z' || c == '_' || c >= '0' && c <= '9'
+		},
+		"IsPrint": func(c byte) bool { return c >= 0x20 && c <= 0x7e },
 	}
 	names := []string{"IsDigit", "IsHexDigit", "IsIdentPart", "IsIdentStart", "IsOctalDigit", "IsPrint"}
 	for _, name := range names {
